@@ -45,11 +45,15 @@ SUPPORTED = {
     "nasim.envs.network.Network.get_total_discovery_value": "scn_scalar",
     "nasim.envs.environment.NASimEnv.get_score_upper_bound": "scn_scalar",
     "nasim.envs.environment.NASimEnv.goal_reached": "scn_scalar",
+    "nasim.envs.action.ParameterisedActionSpace.get_action": "action_decode",
+    "nasim.envs.action.FlatActionSpace.get_action": "action_decode",
+    "nasim.envs.action.ParameterisedActionSpace.__init__": "action_decode",
+    "nasim.envs.action.FlatActionSpace.__init__": "action_decode",
 }
 
 # harnesses whose clauses are evaluated natively by an oracle in replay/dyn_replay.py (environment-level functions: the
 # engine-side contract speaks about an abstract action space / contract-havoced callees that have no concrete lifting)
-NATIVE_ORACLE = {"env_step", "env_action_mask", "layout", "scn_scalar"}
+NATIVE_ORACLE = {"env_step", "env_action_mask", "layout", "scn_scalar", "action_decode"}
 
 
 def random_scenario(rng, cfg):
@@ -140,6 +144,9 @@ def random_input(rng, harness, variant, cfg):
     sc = random_scenario(rng, cfg)
     rep = {"harness": harness, "scenario": sc, "draws": []}
     kinds = ["Exploit", "PrivilegeEscalation", "ServiceScan", "OSScan", "SubnetScan", "ProcessScan", "NoOp"]
+    if harness == "action_decode":
+        rep["seed"] = rng.randrange(10 ** 6)
+        return rep
     if harness in ("layout", "scn_scalar"):
         rep["tensor"] = [random_row(rng, sc, i) for i in range(len(sc["addrs"]))]
         rep["host_index"] = rng.randrange(len(sc["addrs"]))
@@ -394,6 +401,9 @@ def evaluate(repo, c, variant, cfg, harness, rep, actual):
         facts += [ival(ad[0]) == rep["host_addr"][0], ival(ad[1]) == rep["host_addr"][1], nameval(S.a["service"]) == rep["service"]]
     if actual.get("exception"):
         return [f"raises:{actual['exception']}"], None
+    if actual.get("earlier_result_modified"):
+        # history frame (evaluated natively over the batch): this call modified what an earlier call had returned
+        return ["frame:C13.results-of-earlier-calls-untouched"], None
     S.result = lift_result(I, S, harness, rep, actual)
     S.exc = None
     failed = []
